@@ -1,0 +1,70 @@
+//go:build verif
+// +build verif
+
+// Verification shim for property C16, part 2 (add-only): the hand-over of an event batch from the
+// event debouncer to its callback. A batch handed to the callback must be the frames of its window
+// whatever arrives afterwards.
+
+package gocql
+
+import (
+	"net"
+	"time"
+)
+
+// VerifC16EventHandover feeds `first` status frames (numbered 0..first-1 in their port field) to a
+// fresh eventDebouncer and flushes; the callback is held before it reads its batch while `second`
+// further frames (numbered 1000000+i) arrive for the next window; then the callback is released and
+// the second window is flushed. It returns the frame numbers each callback invocation saw.
+func VerifC16EventHandover(first, second int) (batch1, batch2 []int) {
+	gate := make(chan struct{})
+	out := make(chan []int, 4)
+	e := newEventDebouncer("verif", func(fs []frame) {
+		<-gate
+		nums := make([]int, len(fs))
+		for i, f := range fs {
+			nums[i] = f.(*statusChangeEventFrame).port
+		}
+		out <- nums
+	}, verifC16NopLogger{})
+	defer e.stop()
+	flush := func() {
+		e.mu.Lock()
+		e.timer.Stop()
+		e.flush()
+		e.mu.Unlock()
+	}
+	for i := 0; i < first; i++ {
+		e.debounce(&statusChangeEventFrame{change: "DOWN", host: net.IPv4(10, 0, 0, 1), port: i})
+	}
+	flush()
+	for i := 0; i < second; i++ {
+		e.debounce(&statusChangeEventFrame{change: "DOWN", host: net.IPv4(10, 0, 0, 2), port: 1000000 + i})
+	}
+	close(gate)
+	if first > 0 {
+		batch1 = <-out
+	}
+	flush()
+	if second > 0 {
+		select {
+		case batch2 = <-out:
+		case <-time.After(5 * time.Second):
+		}
+	}
+	return
+}
+
+// VerifC16GateNodeEvents replaces the session's node-event debouncer by one whose callback waits for
+// the returned release function before it hands its batch to Session.handleNodeEvent (the schedule in
+// which the handler goroutine starts late). The previous debouncer is stopped.
+func VerifC16GateNodeEvents(s *Session) (release func()) {
+	gate := make(chan struct{})
+	old := s.nodeEvents
+	s.nodeEvents = newEventDebouncer("NodeEvents", func(frames []frame) {
+		<-gate
+		s.handleNodeEvent(frames)
+	}, s.logger)
+	old.stop()
+	return func() { close(gate) }
+}
